@@ -63,9 +63,11 @@ CLAIMED = {
  "C15": dict(technique="bounded exhaustive abstract interpretation (order representatives for pass elevations) of connect_basins, Kruskal, Boruvka and orient_edges on all basin graphs of <= 4 basins / small node graphs, each run twice on the same object",
              text="Decides, within the stated bound (<= 4 basins, all weight orders incl. ties; paths and a 2x3 raster with all elevation assignments from 3 levels), that the tree spans with basins-1 edges and minimum weight for both methods, that edges are oriented away from the root with passes swapped consistently, and that connect_basins keeps the lowest pass per adjacent pair. No argument is made for larger graphs; Boruvka's large-degree path is outside the bound.",
              ref="§12.2 (bounded claim)"),
+ "C14": dict(technique="compositional abstract interpretation over an exact rational-function domain (factored denominators) with symbolic xtensor containers / views / transposes: factor tables, Thomas solver residual identities, line sweep with the solver summarised by fresh symbols, composition of the two sweeps with the sweep summarised; end-to-end cross-check against an independent symbolic Gaussian elimination on small grids",
+             text="Decides, as identities of rational functions valid for all elevations, diffusivities, spacings and time steps (real arithmetic): the factor tables (scalar, face-averaged array, the two agreeing for a uniform array), that the tridiagonal solver solves every system of the shape the sweep produces (3..8 / 3..10 unknowns), that each sweep assembles exactly the implicit Peaceman-Rachford half step with fixed-value ends on any line (grids 3x3, 4x5; uninitialised border factor entries never used), that erode() composes the two sweeps on the transposes with the factor roles exchanged, zero erosion on the borders and linearity. Lines longer than 10 nodes (no inductive argument over the Thomas recursion) and floating-point rounding / stiffness are not decided.",
+             ref="§12.2 (C14)"),
 }
 NA = {
- "C14": "the property is a numerical identity (ADI elevation change = direct solve of two tridiagonal systems, linearity of the map) over real-valued fields: no shape-level clause of it is a necessary condition that the available static domains can decide; the only structural facts (borders left at zero, scratch reset) do not characterise the scheme and are not claimed",
  "C18": "edge lengths, boundary detection from edge multiplicities and circumcentric areas are geometric values over arbitrary triangulations; static analysis has no domain relating mesh input to those outputs",
 }
 DEFAULT_NA = "check not implemented yet (framework under construction)"
